@@ -27,7 +27,7 @@ RULE = (
 )
 ASSUMPTIONS = ["names contain no line breaks (control characters are outside the domain)"]
 BUDGET = {"quick": (220, 4), "thorough": (32000, 16)}
-REQUIRED = ["nested", "multi_action_file", "no_history", "sf_noroot", "sf_root", "sf_relative", "deep_nesting", "renamed_file", "bulk_history"]
+REQUIRED = ["nested", "multi_action_file", "no_history", "sf_noroot", "sf_root", "sf_relative", "deep_nesting", "renamed_file", "bulk_history", "symlinked_file"]
 
 CFG = {
     "kinds": ["create"] * 6 + ["create_sf"] * 2 + ["put_new", "overwrite", "overwrite", "restore"],
@@ -62,6 +62,10 @@ def _scn(draw):
             if draw(st.booleans()):
                 scn["steps"].append({"op": "create", "root": "", "formats": draw(gen.formats(2)), "flags": []})
     scn["cwd"] = draw(st.sampled_from(["parent", "filedir", "base"]))
+    if draw(st.integers(0, 3)) == 0:
+        scn["root"] = draw(st.sampled_from(["Shoot [day 1]", "card[2]", "x[!a]y", "st*r", "wh?t", "{a,b}"]))  # names special to glob
+    # a symbolic link to a file in another folder (possibly in another history): info -sf LINK is about the link's own records
+    scn["symlink"] = draw(st.booleans())
     return scn
 
 
@@ -154,6 +158,10 @@ def run_case(scn, ctx):
             res = w.info(top, sf=[anyfile])
             require(res.exit_code == 30 and res.exc is None, "no-history", "info -sf ROOT without history: " + res.brief(), res)
         feats.add("no_history")
+        if scn.get("symlink") and len(w.files) >= 1 and "link to.mov" not in scn["tree"]:
+            targets = sorted(w.files)
+            w.symlink(top + "/link to.mov", targets[len(targets) // 2])
+            feats.add("symlinked_file")
         for step in scn["steps"]:
             hist.apply_step(w, scn, step)
         roots = w.history_roots()
